@@ -186,7 +186,15 @@ def rule_advertised(R):
     R.floor("advertised", n, 3, "properties placed in CONNECT")
 
 
+def rule_usable(R):
+    """a reconnected session is usable: the send window it starts with is not charged for publishes that were discarded
+    with the previous broker session (shared with C06)"""
+    from .c06 import clause_inflight_read_after_reset
+    clause_inflight_read_after_reset(R, "usable/inflight-read-after-reset")
+
+
 def run(R):
+    R.rule("usable", rule_usable)
     R.rule("advertised", rule_advertised)
     R.rule("reset", rule_reset)
     R.rule("first", rule_first)
